@@ -42,3 +42,148 @@ pub fn clear_forced_u32() {
 pub fn forced_u32() -> Option<u32> {
     FORCED_U32.with(|q| q.borrow_mut().pop_front())
 }
+
+/// Scheduling seam for lock operations (hook H6).
+///
+/// `sync::Mutex` is a `parking_lot::Mutex` look-alike. On a thread that registered a
+/// `SyncHook` it announces every lock / try_lock (before the attempt) and every unlock (before
+/// the release, i.e. while the lock is still held), so a harness scheduler can decide which
+/// thread runs next at exactly these points. On every other thread it is a plain
+/// `parking_lot::Mutex`.
+pub mod sync {
+    use std::cell::RefCell;
+    use std::ops::{Deref, DerefMut};
+    use std::sync::Arc;
+
+    #[derive(Clone, Copy, Debug, PartialEq, Eq)]
+    pub enum LockOp {
+        Lock,
+        TryLock,
+        Unlock,
+    }
+
+    pub trait SyncHook: Send + Sync {
+        /// called before the operation; may block the calling thread
+        fn point(&self, op: LockOp, lock_id: usize);
+        /// called right after an acquisition attempt (`ok` = the lock is now held by the caller)
+        fn acquired(&self, lock_id: usize, ok: bool);
+        /// called right after the release
+        fn released(&self, lock_id: usize);
+    }
+
+    thread_local! {
+        static HOOK: RefCell<Option<Arc<dyn SyncHook>>> = const { RefCell::new(None) };
+    }
+
+    /// Register (or clear) the hook of the calling thread.
+    pub fn set_thread_hook(h: Option<Arc<dyn SyncHook>>) {
+        HOOK.with(|c| *c.borrow_mut() = h);
+    }
+
+    fn hook() -> Option<Arc<dyn SyncHook>> {
+        HOOK.try_with(|c| c.borrow().clone()).ok().flatten()
+    }
+
+    #[derive(Debug, Default)]
+    pub struct Mutex<T: ?Sized> {
+        inner: parking_lot::Mutex<T>,
+    }
+
+    pub struct MutexGuard<'a, T: ?Sized> {
+        guard: Option<parking_lot::MutexGuard<'a, T>>,
+        id: usize,
+    }
+
+    impl<T> Mutex<T> {
+        pub const fn new(value: T) -> Self {
+            Mutex {
+                inner: parking_lot::Mutex::new(value),
+            }
+        }
+
+        pub fn into_inner(self) -> T {
+            self.inner.into_inner()
+        }
+    }
+
+    impl<T: ?Sized> Mutex<T> {
+        fn id(&self) -> usize {
+            &self.inner as *const parking_lot::Mutex<T> as *const u8 as usize
+        }
+
+        pub fn lock(&self) -> MutexGuard<'_, T> {
+            let id = self.id();
+            let h = hook();
+            if let Some(h) = &h {
+                h.point(LockOp::Lock, id);
+            }
+            let guard = self.inner.lock();
+            if let Some(h) = &h {
+                h.acquired(id, true);
+            }
+            MutexGuard {
+                guard: Some(guard),
+                id,
+            }
+        }
+
+        pub fn try_lock(&self) -> Option<MutexGuard<'_, T>> {
+            let id = self.id();
+            let h = hook();
+            if let Some(h) = &h {
+                h.point(LockOp::TryLock, id);
+            }
+            let guard = self.inner.try_lock();
+            if let Some(h) = &h {
+                h.acquired(id, guard.is_some());
+            }
+            guard.map(|g| MutexGuard {
+                guard: Some(g),
+                id,
+            })
+        }
+
+        /// No virtual time passes at a scheduling point: a timed attempt is one attempt.
+        pub fn try_lock_for(&self, _timeout: std::time::Duration) -> Option<MutexGuard<'_, T>> {
+            self.try_lock()
+        }
+
+        pub fn try_lock_until(&self, _deadline: std::time::Instant) -> Option<MutexGuard<'_, T>> {
+            self.try_lock()
+        }
+
+        pub fn is_locked(&self) -> bool {
+            self.inner.is_locked()
+        }
+
+        pub fn get_mut(&mut self) -> &mut T {
+            self.inner.get_mut()
+        }
+    }
+
+    impl<T: ?Sized> Deref for MutexGuard<'_, T> {
+        type Target = T;
+        fn deref(&self) -> &T {
+            self.guard.as_ref().expect("guard")
+        }
+    }
+
+    impl<T: ?Sized> DerefMut for MutexGuard<'_, T> {
+        fn deref_mut(&mut self) -> &mut T {
+            self.guard.as_mut().expect("guard")
+        }
+    }
+
+    impl<T: ?Sized> Drop for MutexGuard<'_, T> {
+        fn drop(&mut self) {
+            let h = hook();
+            if let Some(h) = &h {
+                h.point(LockOp::Unlock, self.id);
+            }
+            drop(self.guard.take());
+            if let Some(h) = &h {
+                h.released(self.id);
+            }
+        }
+    }
+}
